@@ -83,6 +83,14 @@ def skeletons(dom):
         "complex_times_max": conditional(lt(f * max_value(real(f), real(g)), 0), f, g),
         "max_of_complex_cond": max_value(conditional(gt(abs(f), 1), f, g), 1.0),
         "min_of_complex_times_min": min_value(g * min_value(real(f), 1.0), 2.0),
+        # comparisons / min / max BENEATH a node whose own result is real (round 4): the operands still have to be checked
+        "cmp_under_real": real(conditional(lt(f, g), f, g)) * g,
+        "max_under_imag": imag(max_value(f, g) * f) + f,
+        "cmp_under_abs": abs(conditional(lt(f, 1.0), f, g)),
+        "min_under_real_under_conj": conj(real(min_value(f * g, 1.0)) * g),
+        "cmp_under_real_ok": real(conditional(lt(abs(f), 1.0), f, g)) * g,
+        "min_under_imag_ok": imag(min_value(abs(f), real(g)) * g) + f,
+        "cmp_under_abs_ok": abs(conditional(gt(imag(f), real(g)), f, g)),
         # functions that leave the reals on part of the real axis
         "ln_of_real": conditional(lt(ln(real(f)), 0), f, g),
         # (ln(abs(f)) is real-valued, but showing it needs ln's range on [0, inf): uninterpreted here, left out)
